@@ -68,6 +68,7 @@ class Inst:
     native_models: list = field(default_factory=list)  # harness-relative files for native build
     unwind: int = None
     unwindset: dict = field(default_factory=dict)
+    unwind_pat: list = field(default_factory=list)  # [(function, regex on the loop's source line, bound)]
     flags: list = field(default_factory=list)     # extra cbmc flags
     no_flags: list = field(default_factory=list)  # std flags to drop
     cflags: list = field(default_factory=list)    # extra goto-cc flags (e.g. -mavx2, -include x)
@@ -290,6 +291,29 @@ def native_replay(prop, inst, vin, extra_defs=None):
     return True, "exit=%d\n%s" % (r.returncode, txt)
 
 
+RE_LOOP = re.compile(r"^Loop (\S+):\n\s+file (\S+) line (\d+) function (\S+)", re.M)
+
+
+def resolve_unwind_patterns(inst, gb):
+    """Loop ids are looked up by source text on every run, so they follow edits of /repo."""
+    if not inst.unwind_pat:
+        return {}
+    out = sh(["cbmc", gb, "--show-loops"]).stdout
+    us = {}
+    cache = {}
+    for lid, fn, line, func in RE_LOOP.findall(out):
+        if fn not in cache:
+            try:
+                cache[fn] = open(fn, errors="replace").read().split("\n")
+            except OSError:
+                cache[fn] = []
+        src = cache[fn][int(line) - 1] if int(line) - 1 < len(cache[fn]) else ""
+        for f, rx, bound in inst.unwind_pat:
+            if f == func and re.search(rx, src):
+                us[lid] = bound
+    return us
+
+
 def is_unwind_prop(name, descr):
     return ".unwind." in name or "unwinding assertion" in descr or "recursion unwinding" in descr
 
@@ -303,6 +327,9 @@ def run_instance(prop, inst, kf_defs=None):
         res.verdict, res.reason = "error", "goto-cc failed: " + log[-1500:]
         res.wall_s = time.time() - t0
         return res
+    if inst.unwind_pat:
+        inst = dataclasses.replace(inst, unwindset=dict(inst.unwindset, **resolve_unwind_patterns(inst, gb)))
+        res.inst = inst
     cmd = cbmc_cmd(inst, gb)
     rc, out, wall, rss, to = run_limited(cmd, inst.timeout, inst.mem_gb)
     res.rss_mb = rss
